@@ -2,4 +2,29 @@ import CV.Model.CatValidate
 import CV.Model.CatContiguous
 import CV.Model.CatLookup
 import CV.Model.CatUniform
-/-! Impl models of component `cat` (fixed-point / integer entropy models); see the four parts. -/
+/-!
+Impl models of component `cat` (fixed-point / integer entropy models); see the four parts.
+
+API entry points that have no model function of their own:
+
+* the deprecated constructors
+  `ContiguousCategoricalEntropyModel::from_floating_point_probabilities`,
+  `ContiguousLookupDecoderModel::from_floating_point_probabilities`,
+  `NonContiguousCategoricalDecoderModel::from_symbols_and_floating_point_probabilities`,
+  `NonContiguousCategoricalEncoderModel::from_symbols_and_floating_point_probabilities`,
+  `NonContiguousLookupDecoderModel::from_symbols_and_floating_point_probabilities`
+  are one-line aliases (`Self::…_perfect(..)`, the slice variants via `symbols.iter().cloned()`):
+  **alias, identified with `…_perfect`** (whose integer part is
+  `from_[symbols_and_]nonzero_fixed_point_probabilities(.., false)` modelled here, the float
+  part belongs to component `quant`); **checked by oracle** (`harness/src/cat_alias.rs`:
+  same accept / reject / panic class and same symbol table as `…_perfect` on valid and
+  invalid float tables, matching / short / long / repeated symbol lists).
+* `from_iterable_entropy_model(model)` of the three non-contiguous types is
+  `NcDec.fromTable` / `NcEnc.fromTable` / `NcLookup.fromTable` applied to `model.symbol_table()`;
+  `to_generic_decoder_model` / `to_generic_encoder_model` / `to_generic_lookup_decoder_model`
+  and the non-contiguous `to_lookup_decoder_model` are `self.into()` = `From<&M>` = the same
+  function (protocol ops `togendec`, `togenenc`, `togenlookup`, `tolookup`); the direct calls
+  are exercised by the oracle from every iterable source (contiguous and its view, both lookup
+  decoders, non-contiguous decoder, uniform, leakily quantized; the lazy model is not iterable).
+* `as_view` returns the same fields by reference and is not distinguished.
+-/
